@@ -231,11 +231,11 @@ def trainer_slices(kind, y, saliency):
     alone = {}
     for idx in np.ndindex(*lead):
         try:
-            alone[idx] = _fit_dist(kind, y[idx].copy(), _take(saliency, idx), trainers)
+            alone[idx] = _fit_dist(kind, y[idx].copy(order='K'), _take(saliency, idx), trainers)
         except (AssertionError, np.linalg.LinAlgError, ValueError, FloatingPointError) as e:
             return Skip(f'slice alone raises {type(e).__name__} ({kind})')
     try:
-        stacked = _fit_dist(kind, y.copy(), saliency, trainers)
+        stacked = _fit_dist(kind, y.copy(order='K'), saliency, trainers)
     except Exception as e:  # noqa
         return Fail(f'{kind}:stacked-fit-raises-{type(e).__name__}',
                     f'{kind} trainer: every slice fits alone, the stack of leading shape {lead} raises {type(e).__name__}: {e}')
@@ -423,12 +423,12 @@ def mixture_slices(kind, y, initialization, saliency, iterations, wca):
     alone = {}
     for idx in np.ndindex(*lead):
         try:
-            alone[idx] = _mix_fit(kind, trainer, y[idx].copy(), initialization[idx].copy(), _take(saliency, idx), iterations, wca)
+            alone[idx] = _mix_fit(kind, trainer, y[idx].copy(order='K'), initialization[idx].copy(order='K'), _take(saliency, idx), iterations, wca)
             alone[idx].predict(y[idx])
         except (AssertionError, np.linalg.LinAlgError, ValueError, FloatingPointError) as e:
             return Skip(f'slice alone raises {type(e).__name__} ({kind})')
     try:
-        stacked = _mix_fit(kind, trainer, y.copy(), initialization.copy(), saliency, iterations, wca)
+        stacked = _mix_fit(kind, trainer, y.copy(order='K'), initialization.copy(order='K'), saliency, iterations, wca)
         pred = stacked.predict(y)
     except Exception as e:  # noqa
         return Fail(f'{kind}:stacked-fit-raises-{type(e).__name__}',
@@ -459,12 +459,12 @@ def singleton_init_repeated(kind, y, initialization, iterations):
     full = np.ascontiguousarray(np.broadcast_to(initialization, lead + initialization.shape[-2:]))
     trainer = _mix_trainer(kind, D)
     try:
-        ref = _mix_fit(kind, trainer, y.copy(), full.copy(), None, iterations, 'tuple')
+        ref = _mix_fit(kind, trainer, y.copy(order='K'), full.copy(order='K'), None, iterations, 'tuple')
         ref_pred = ref.predict(y)
     except (AssertionError, np.linalg.LinAlgError, ValueError, FloatingPointError) as e:
         return Skip(f'repeated affiliation raises {type(e).__name__} ({kind})')
     try:
-        got = _mix_fit(kind, trainer, y.copy(), initialization.copy(), None, iterations, 'tuple')
+        got = _mix_fit(kind, trainer, y.copy(order='K'), initialization.copy(order='K'), None, iterations, 'tuple')
         got_pred = got.predict(y)
     except Exception as e:  # noqa
         return Fail(f'{kind}:singleton-init-raises-{type(e).__name__}',
@@ -955,7 +955,7 @@ def corr(ctx):
             has_mask = rng.random() < 0.3
             mask = (rng.random(lead + (K, N)) < 0.7) if has_mask else None
             eps = float(rng.choice([0.0, 0.0, 1e-10, 1e-3]))
-            want = mmu.log_pdf_to_affiliation(w, lp.copy(), source_activity_mask=mask, affiliation_eps=eps)
+            want = mmu.log_pdf_to_affiliation(w, lp.copy(order='K'), source_activity_mask=mask, affiliation_eps=eps)
             line = f'affil {int(has_mask)} {int(eps != 0)} {tu.fbits([eps])} {tu.ttok(w)} {tu.ttok(lp)}' + \
                    (f' {tu.ttok(mask.astype(float))}' if has_mask else '')
             add('log_pdf_to_affiliation', line, want, f'lead {lead}, K={K}, N={N}, weight {wkind} {w.shape}, mask={has_mask}, eps={eps}',
@@ -990,7 +990,7 @@ def corr(ctx):
             else:
                 y = tu.slice_contents(rng, lead, (N, D))
                 sal = None if layout == 'plain-nosal' else _gen_saliency(rng, lead, N)
-            m = G.GaussianTrainer()._fit(y.copy(), saliency=sal, covariance_type=ct)
+            m = G.GaussianTrainer()._fit(y.copy(order='K'), saliency=sal, covariance_type=ct)
             line = f'gfit {ct} {int(sal is not None)} {tu.ttok(y)}' + (f' {tu.ttok(sal)}' if sal is not None else '')
             add(f'GaussianTrainer._fit[{ct}]', line, [m.mean, m.covariance], f'{ct}, {layout}, y {y.shape}', {'y': y, 'saliency': sal},
                 rtol=1e-8)
@@ -1050,7 +1050,7 @@ def corr(ctx):
             y = tu.slice_contents(rng, lead, (N, D))
             init = _gen_init(rng, lead, K, N)
             sal = np.ones(lead + (N,)) if rng.random() < 0.5 else _gen_saliency(rng, lead, N)
-            m = GMM_.GMMTrainer().fit(y.copy(), initialization=init.copy(), iterations=n + 1, saliency=sal,
+            m = GMM_.GMMTrainer().fit(y.copy(order='K'), initialization=init.copy(order='K'), iterations=n + 1, saliency=sal,
                                       covariance_type={'full': 'full', 'diagonal': 'diagonal', 'spherical': 'spherical'}[ct])
             g = m.gaussian
             fields = [m.weight, g.mean, g.covariance, g.precision_cholesky, g.log_det_precision_cholesky]
